@@ -131,6 +131,59 @@ class C10Proj(ControlProjector):
         return None
 
 
+class C11Proj(ControlProjector):
+    """everything observable after a restart, and the restart itself"""
+    def step(self, kind, op, a, b):
+        self.track(kind, op, a, b)
+        if kind == 'restart':
+            return a, b, True
+        if self.after_restart:
+            if kind == 'probing':
+                return None  # which probe loops run after a restart is C17's business
+            return a, b, kind in COMMANDS
+        if kind == 'snapshot':
+            return a, b, False  # what is written is what will be restored
+        return None
+
+
+class C16Proj(ControlProjector):
+    """redirects, TLS rejects, certificate answers, the TLS flag of every service, TLS-specific deploy errors"""
+    def step(self, kind, op, a, b):
+        self.track(kind, op, a, b)
+        if kind == 'req':
+            tls = ' tls=1 ' in op + ' '
+            if b.startswith('req 301') or a.startswith('req 301') or tls:
+                return a, b, b.startswith('req 301') or b.startswith('req 503')
+            return None
+        if kind == 'cert':
+            return a, b, b == 'cert 1'
+        if kind == 'list':
+            return list_cols(a, (0, 4)), list_cols(b, (0, 4)), False
+        if kind == 'deploy':
+            if b in ('res acmeWildcard', 'res badCert') or a in ('res acmeWildcard', 'res badCert'):
+                return a, b, True
+            return res_okerr(a), res_okerr(b), False
+        return None
+
+
+class C08Proj(ControlProjector):
+    """stop / pause / resume, what requests for a non-running service get, the state column, state across redeploys"""
+    def step(self, kind, op, a, b):
+        self.track(kind, op, a, b)
+        if kind in ('stop', 'pause', 'resume'):
+            return a, b, kind == 'stop' and b == 'res ok'
+        if kind == 'req':
+            if b.startswith('req 503') or b.startswith('req 200health') or a.startswith('req 503') or a.startswith('req 200health'):
+                return a, b, 'raw=x' not in b and b.startswith('req 503')
+            if b.startswith('req fwd') or b.startswith('req held'):
+                # forwarded although the model says stopped/paused (or the reverse) shows up as a difference in kind
+                return a.split(' ')[1], b.split(' ')[1], False
+            return None
+        if kind == 'list':
+            return list_cols(a, (0, 5)), list_cols(b, (0, 5)), False
+        return None
+
+
 def control(projector, n_quick=160, n_thorough=6000):
     return dict(engine='control', n_quick=n_quick, n_thorough=n_thorough, projector=projector)
 
@@ -146,6 +199,30 @@ def engine(name, projector, n_quick, n_thorough, **kw):
 
 
 PROPS = {
+    'C16': dict(
+        engines=[control(C16Proj, 200, 8000)],
+        rule=RULE_CONTROL + "for C16 when a request is answered 301 or 503 by the TLS policy or a certificate query succeeds; requests are "
+             "generated over plain/TLS, hosts with and without ports, root and sub-path services with every TLS/redirect/static-certificate "
+             "combination, deployed, redeployed, removed and restored in random order",
+        assumptions=["crypto/tls, autocert and http.Redirect are modelled; automatic TLS is exercised up to the host policy only (no network)",
+                     "redirect targets with percent-encoded paths are covered by the rewrite engine (C13) model of net/url"],
+    ),
+    'C08': dict(
+        engines=[control(C08Proj, 200, 8000)],
+        rule=RULE_CONTROL + "for C08 when a request is answered 503 with a non-empty operator message; messages include markup, template "
+             "syntax, quotes, entities and non-ASCII text, with and without a custom 503 page; the text inserted in the page is compared "
+             "byte for byte with the model's escapeHTML",
+        assumptions=["html/template is modelled for the HTML text context only (a custom page that uses .Message in an attribute or script "
+                     "context is outside the claim)"],
+    ),
+    'C11': dict(
+        engines=[control(C11Proj, 200, 8000)],
+        rule=RULE_CONTROL + "for C11 when it contains a restart followed by at least one command; every observation after the restart "
+             "(command results, list, state file, routing, requests incl. pause/stop/rollout behaviour, certificates) is compared with the "
+             "model, whose restart is `restoreCore` of the file the implementation-equivalent model wrote",
+        assumptions=["persisted strings are valid UTF-8 (encoding/json replaces invalid bytes)", "certificate files and error-page directories "
+                     "still load at restart", "restored targets are presumed healthy and rotation restarts (the stated licence)"],
+    ),
     'C10': dict(
         engines=[engine('rollout', lambda: AllProj(lambda k, op, b: k == 'pct' or 'present=1' in b), 120, 20000),
                  control(C10Proj, 120, 4000)],
